@@ -35,7 +35,7 @@ type Case struct {
 	Stale bool `json:"stale,omitempty"`
 }
 
-var spinCores = []string{"loop", "loop_cond", "cfor", "cfor_nocond", "forin_nested", "forin_map", "recursion", "loop_in_switch", "loop_nested_break", "loop_continue"}
+var spinCores = []string{"loop", "loop_cond", "cfor", "cfor_nocond", "forin_nested", "forin_map", "recursion", "loop_in_switch", "loop_nested_break", "loop_continue", "fanout_range", "fanout_recv", "fanout_recv2", "pipeline_relay"}
 var blockCores = []string{"recv", "send", "recv2", "range_chan", "recv_stmt"}
 var wrappers = []string{"fn0", "fn2", "fn4", "fn5", "fnvar", "anon", "go_join", "go_join5", "try_body", "catch", "finally", "coalesce_l", "coalesce_r", "ternary", "deferred", "list_elem", "go_arg", "module", "if", "switch_case", "forin_once", "callback"}
 
@@ -92,6 +92,15 @@ func coreSrc(core string) string {
 		return "for {\n for {\n  tick()\n  break\n }\n}"
 	case "loop_continue":
 		return "for {\n tick()\n continue\n}"
+	case "fanout_range":
+		// a buffered channel fed by a spinning producer and drained by TWO consumers
+		return "wch = make(chan int64, 3)\ngo func() {\n for {\n  wch <- 1\n }\n}()\ngo func() {\n for wv in wch {\n  tick()\n }\n}()\nfor wv in wch {\n tick()\n}"
+	case "fanout_recv":
+		return "wch = make(chan int64, 3)\ngo func() {\n for {\n  wch <- 1\n }\n}()\ngo func() {\n for {\n  wv = <-wch\n  tick()\n }\n}()\nfor {\n wv = <-wch\n tick()\n}"
+	case "fanout_recv2":
+		return "wch = make(chan int64, 2)\ngo func() {\n for {\n  wch <- 1\n }\n}()\ngo func() {\n for {\n  wv, wok = <-wch\n  tick()\n }\n}()\nfor wv in wch {\n tick()\n}"
+	case "pipeline_relay":
+		return "wa = make(chan int64, 2)\nwb = make(chan int64, 2)\ngo func() {\n for {\n  wa <- 1\n }\n}()\ngo func() {\n for {\n  wb <- <-wa\n }\n}()\nfor wv in wb {\n tick()\n}"
 	case "recv":
 		return "entered()\nbv = <-never"
 	case "send":
@@ -400,6 +409,9 @@ func oracle(c Case, o *h.Obs) *h.Fail {
 	if c.Mode == "B" {
 		allowed = 2 // a tick may be in flight when the asynchronous cancel lands
 	}
+	if strings.HasPrefix(c.Core, "fanout") {
+		allowed += 2 // a second consumer goroutine may have its own tick in flight
+	}
 	if r.postTicks > allowed {
 		return h.Failf(sig("ticks-after-cancel"), "%d tick() calls happened after the cancellation (allowed %d)\n%s", r.postTicks, allowed, detail)
 	}
@@ -424,6 +436,6 @@ func TestC02(t *testing.T) {
 	c := h.New(t, "C02")
 	defer c.Finish()
 	ctxRef = c
-	c.Rule("program = core wrapped in 0..3 constructs; cores: for{}, for cond{}, C-style loops, nested for-in over slices/maps, recursion, loops in switch / with break / continue (spinning), blocked receive / send / two-value receive / range over a channel nobody serves; wrappers: script functions of arity 0,2,4 (direct path), 5 and variadic (reflect path), anonymous call, go + join (both go paths), try body / catch / finally, ?? on either side, ternary, deferred call, list element, Go-call argument, module body, if, switch case, for-in body; every level is followed by a sentinel probe. cancel: mode A from inside the k-th tick() host call, mode B asynchronously d microseconds after the core was entered; GOMAXPROCS in {default,1,2,4}; in a quarter of the cases the outermost function is defined by an earlier run (background context) of the same environment and only called by the cancellable run. non-trivial = at least one wrapper and the cancel landed while the core was active; distinct = (source, mode, k, delay, procs). The callback wrapper (script function converted to a Go func) is the known finding F-callback-ctx: excluded from generation, reproduced from a committed replay")
+	c.Rule("program = core wrapped in 0..3 constructs; cores: for{}, for cond{}, C-style loops, nested for-in over slices/maps, recursion, loops in switch / with break / continue, buffered channels fed by a spinning producer goroutine and drained by two consumers (for-in, receive, two-value receive) or relayed through a second channel (spinning), blocked receive / send / two-value receive / range over a channel nobody serves; wrappers: script functions of arity 0,2,4 (direct path), 5 and variadic (reflect path), anonymous call, go + join (both go paths), try body / catch / finally, ?? on either side, ternary, deferred call, list element, Go-call argument, module body, if, switch case, for-in body; every level is followed by a sentinel probe. cancel: mode A from inside the k-th tick() host call, mode B asynchronously d microseconds after the core was entered; GOMAXPROCS in {default,1,2,4}; in a quarter of the cases the outermost function is defined by an earlier run (background context) of the same environment and only called by the cancellable run. non-trivial = at least one wrapper and the cancel landed while the core was active; distinct = (source, mode, k, delay, procs). The callback wrapper (script function converted to a Go func) is the known finding F-callback-ctx: excluded from generation, reproduced from a committed replay")
 	h.Run(c, "cancel", c.N(2500, 30000), gen, oracle)
 }
